@@ -12,6 +12,9 @@ import BlocV.Spec.Arith
 -- BEGIN C13
 import BlocV.Spec.Lex
 -- END C13
+-- BEGIN C13R2
+import BlocV.DrvC13
+-- END C13R2
 
 -- BEGIN C18
 import BlocV.DrvC18
@@ -118,6 +121,9 @@ def handleTok (hex reader : String) : String :=
 -- END C13
 
 def handle (words : List String) : String :=
+  -- BEGIN C13R2
+  if let some r := DrvC13.handle words then r else
+  -- END C13R2
   -- BEGIN C11
   if let some r := DrvC11.handle words then r else
   if let some r := DrvC11S.handle words then r else
